@@ -10,6 +10,8 @@ import time
 
 VERIF_HOME = os.environ.get("VERIF_HOME", os.path.dirname(os.path.dirname(os.path.abspath(__file__))))
 VERIF_REPO = os.environ.get("VERIF_REPO", "/repo")
+#: where evidence/ and replays/ are written (the audit redirects it so mutated runs never touch committed evidence)
+VERIF_OUT = os.environ.get("VERIF_OUT", VERIF_HOME)
 PYTHON = "/venv/bin/python"
 
 
@@ -102,13 +104,13 @@ class Verdict:
             print(f"  mechanism: {mechanism}\n  {message}"[:2000], flush=True)
 
     def _write_replay(self, witness, message, mechanism, known=False):
-        os.makedirs(os.path.join(VERIF_HOME, "replays"), exist_ok=True)
+        os.makedirs(os.path.join(VERIF_OUT, "replays"), exist_ok=True)
         name = f"{self.prop}-{'known-' if known else ''}{stable_hash([mechanism, witness])}.json"
-        path = os.path.join(VERIF_HOME, "replays", name)
+        path = os.path.join(VERIF_OUT, "replays", name)
         with open(path, "w") as fd:
             json.dump({"property": self.prop, "mechanism": mechanism, "message": message, "witness": witness},
                       fd, indent=1, default=str)
-        return os.path.relpath(path, VERIF_HOME)
+        return os.path.relpath(path, VERIF_OUT)
 
     # -- finishing -------------------------------------------------------------------------
     def finish(self, min_counters=()):
@@ -144,8 +146,8 @@ class Verdict:
             "violations": len(self.violations),
         }
         if not self.args.replay:
-            os.makedirs(os.path.join(VERIF_HOME, "evidence"), exist_ok=True)
-            with open(os.path.join(VERIF_HOME, "evidence", f"{self.prop}.json"), "w") as fd:
+            os.makedirs(os.path.join(VERIF_OUT, "evidence"), exist_ok=True)
+            with open(os.path.join(VERIF_OUT, "evidence", f"{self.prop}.json"), "w") as fd:
                 json.dump(evidence, fd, indent=1, default=str)
         mechanisms = {}
         for mechanism, _, _ in self.violations:
